@@ -60,8 +60,9 @@ theorem inAck_cw (st : InLoop) (sn ts : U32) (h : CwOK st.k) : CwOK (inAck st sn
   unfold inAck
   simp only []
   obtain ⟨b1, e1⟩ := parseAck_shape st.k sn
-  obtain ⟨b2, e2⟩ := parseFastack_shape (parseAck st.k sn) sn ts
-  rw [e2, e1]; exact h
+  obtain ⟨b2, u2, e2⟩ := shrinkBuf_shape (parseAck st.k sn)
+  obtain ⟨b3, e3⟩ := parseFastack_shape (shrinkBuf (parseAck st.k sn)) sn ts
+  rw [e3, e2, e1]; exact h
 
 theorem inPush_cw (st : InLoop) (seg : Seg) (h : CwOK st.k) : CwOK (inPush st seg).k := by
   unfold inPush
